@@ -281,17 +281,22 @@ def monitor(case, o):
         for q in submitted:
             if replies.get(q, 0) == 0 and q not in cancelled_before_reply(o, q):
                 v["C02"].append(({"class": "unanswered"}, "request %d was never answered" % q))
-    # reuse class: nothing can make a second runner for a model necessary
-    if case.get("klass") == "reuse" and not o.get("deadlock"):
+    # reuse class: every request is compatible with the first runner of its model, no load / ping / newServer
+    # failure, keep-alive forever, room for every model: a second runner for a model is justified only by an explicit
+    # unload of that model before it was started
+    if case.get("klass") == "reuse" and not o.get("deadlock") and len(case["models"]) <= (case["max"] or 3 * max(1, len(case["gpus"]))):
+        start_step = {}
+        for i, e in flat_events(o):
+            if e[0] == "newserver" and e[2] >= 0:
+                start_step[e[2]] = i
         per = {}
         for rid, (m, _) in started.items():
             per.setdefault(m, []).append(rid)
-        expired_api = any(e[0] == "expire" for _, e in flat_events(o) if True)
-        drain_from = next((i for i, s in enumerate(o["steps"]) if s.get("ph")), len(o["steps"]))
         for m, rids in per.items():
-            early = [r for r in rids]
-            if len(early) > 1 and not api_expired_before(o, m, drain_from) and len(case["models"]) <= (case["max"] or 3):
-                v["C11"].append(({"class": "not-reused"}, "model %d got runners %s although every request was compatible with the first one, nothing failed and nothing expired" % (m, rids)))
+            rids = sorted(rids, key=lambda r: start_step.get(r, 0))
+            if len(rids) > 1 and not api_expired_before(o, m, start_step.get(rids[1], 0)):
+                v["C11"].append(({"class": "not-reused"}, "model %d got runners %s although every request was compatible with the first one, nothing failed, "
+                                 "nothing expired and there was room for every model" % (m, rids)))
     return v
 
 
@@ -305,7 +310,7 @@ def cancelled_before_reply(o, q):
 
 def api_expired_before(o, m, upto):
     for i, e in flat_events(o):
-        if e[0] == "expire" and e[1] == m:
+        if e[0] == "expire" and e[1] == m and i <= upto:
             return True
     return False
 
